@@ -40,6 +40,17 @@ fn main() {
     let thorough = cli.tier == "thorough";
     // ---- pool
     let mut pool: Vec<PoolKey> = Vec::new();
+    // mixed lock states: what matters is the state of the key packet that holds the decryption key (the subkey)
+    {
+        let mut k = enc_key(KeyVersion::V4, KeyType::Ed25519Legacy, KeyType::ECDH(ECCCurve::Curve25519Legacy), 191);
+        let pkk = SignedPublicKey::from(k.clone());
+        for s in k.secret_subkeys.iter_mut() { let _ = s.key.set_password(Rng::new(2), &Password::from("kp1")); }
+        pool.push(PoolKey { name: "v4-primary-clear-subkey-locked".into(), sk: k, pk: pkk, locked_with: Some("kp1".into()) });
+        let mut k = enc_key(KeyVersion::V6, KeyType::Ed25519, KeyType::X25519, 192);
+        let pkk = SignedPublicKey::from(k.clone());
+        let _ = k.primary_key.set_password(Rng::new(1), &Password::from("kp2"));
+        pool.push(PoolKey { name: "v6-primary-locked-subkey-clear".into(), sk: k, pk: pkk, locked_with: None });
+    }
     let mut add = |name: &str, sk: SignedSecretKey, lock: Option<&str>| {
         let pk = SignedPublicKey::from(sk.clone());
         let mut sk = sk;
